@@ -118,9 +118,12 @@ def main():
         print("REPLAY: no violation reproduced")
         return 0
 
+    real_stdout = sys.stdout
+    sys.stdout = sys.stderr          # whatever the code under test prints must not reach the verdict channel
     try:
         mod.run(ctx)
     except seams.HarnessError as e:
+        sys.stdout = real_stdout
         print("HARNESS-ERROR %s: %s" % (pid, e), file=sys.stderr)
         traceback.print_exc()
         return 2
@@ -180,6 +183,7 @@ def main():
         with open(os.path.join(HOME, 'evidence', pid + '.json'), 'w') as f:
             json.dump(ev, f, indent=1, sort_keys=True)
             f.write("\n")
+    sys.stdout = real_stdout
     for line in out_lines:
         print(line)
     for nline in ctx.notes:
